@@ -9,4 +9,4 @@ E="PATH=/venv/bin:$PATH SEMGREP_SEND_METRICS=off SEMGREP_ENABLE_VERSION_CHECK=0"
 (cd "$D" && env $E PYTHONPATH="$D/clean/src" /venv/bin/python "$C/demo.py" >/dev/null 2>&1); echo "demo on clean: exit $?"
 (cd "$D" && env $E PYTHONPATH="$D/mut/src" /venv/bin/python "$C/demo.py" >/dev/null 2>&1); echo "demo on patched: exit $?"
 cd "$(dirname "$0")/.."
-CMV_REPO="$D/mut" CMV_EVIDENCE_DIR="$D/evidence" ./check "$ID" "$TIER" 2>&1 | grep -E "VIOLATION|KNOWN-FINDING|signature:|HARNESS|cases," | cut -c1-260
+CMV_ONLY="$CMV_ONLY" CMV_REPO="$D/mut" CMV_EVIDENCE_DIR="$D/evidence" ./check "$ID" "$TIER" 2>&1 | grep -E "VIOLATION|KNOWN-FINDING|signature:|HARNESS|cases," | cut -c1-260
